@@ -131,7 +131,16 @@ def run(rep):
             rcases.append(readcore.read_case(arc[:cut], source=(0,), rplan=[bs] * (cut // bs + 2), consume=dump))
             meta.append((name, "truncate@%d" % cut, "eos"))
     import C01
-    lines = C01.run_resilient(rep, readall, rcases, [(m[0], m[1]) for m in meta], per_batch_timeout=900 if quick else 6000)
+    if quick:
+        lines = C01.run_resilient(rep, readall, rcases, [(m[0], m[1]) for m in meta], per_batch_timeout=900)
+    else:
+        # several hundred megabytes of cases: parallel shards (a shard out of time re-runs its case alone before blaming it)
+        lines, failures = readcore.run_readall_sharded(readall, rcases, shards=64, workers=14, timeout=2400, single_timeout=300)
+        for bad, rc, err in failures[:8]:
+            rep.violation("C08:crash:%s:%s" % (meta[bad][0].split(":")[0] if ":" in meta[bad][0] else "ref", vlib.crash_key(err)),
+                          "reader stopped (rc=%s, %s) on %s, %s" % (rc, vlib.crash_key(err), meta[bad][0], meta[bad][1]),
+                          dict(case=rcases[bad][:200000], archive=meta[bad][0], mutation=meta[bad][1], stderr=err[-3000:],
+                               cmd="harness readAll (asan) on the case line"), found_input=True)
     intact, intact_skip = {}, {}
     nchk = 0
     for (name, what, kind), c, l in zip(meta, rcases, lines):
